@@ -89,6 +89,13 @@ Theorem C20_valuestruct_roundtrip : forall v, vs_expires v < two64 ->
 Proof. exact C20Proofs.vs_roundtrip. Qed.
 Print Assumptions C20_valuestruct_roundtrip.
 
+(* ValueStruct.Decode on ANY buffer: when it does not panic the value is a suffix of the buffer,
+   the meta bytes are its first two bytes and the expiry fits 64 bits *)
+Theorem C20_valuestruct_decode_bounds : forall b v, vs_decode b = Some v ->
+  (exists p, b = p ++ vs_value v) /\ vs_expires v < two64 /\ firstn 2 b = [vs_meta v; vs_umeta v].
+Proof. exact C20Proofs.vs_decode_bounds. Qed.
+Print Assumptions C20_valuestruct_decode_bounds.
+
 Theorem C20_valuestruct_size : forall v, N.of_nat (length (vs_encode v)) < two32 ->
   vs_encoded_size v = N.of_nat (length (vs_encode v)).
 Proof. exact C20Proofs.vs_encoded_size_spec. Qed.
